@@ -80,6 +80,8 @@ func (_this *Encoder) OnComment(bool, []byte) {
 }
 
 func (_this *Encoder) OnBeginDocument() {
+	// A previous document may have been abandoned between OnArrayBegin and its first chunk.
+	_this.trySmallArrayHeader = false
 	_this.writer.WriteSingleByte(CBESignatureByte)
 }
 
